@@ -65,6 +65,9 @@ def wireEqv : W → W → Bool
   | .tagged w alts, .tagged w' alts' => (w == w') && wireEqvPrefix alts alts'
   | .canary, .canary => true
   | .sysTime, .sysTime => true
+  -- a `SystemTime` is written as one 16 byte integer: the same layout as any other 16 byte primitive
+  | .sysTime, .fixed k => k == 16
+  | .fixed k, .sysTime => k == 16
   | _, _ => false
 def wireEqvL : WL → WL → Bool
   | .nil, .nil => true
